@@ -121,6 +121,22 @@ def impl(case):
                   'd_parts': [float(x.tracer_diffusivity(dimensions=case['dim'])) for x in ind],
                   'v_parts': [float(x.vibration_amplitude()) for x in ind]}
     out['inputs_changed'] = guard.changed()
+    # a run analysed, then extended in place, then analysed again: the second analysis is that of the long run
+    from gemdat.trajectory import Trajectory
+    whole = np.array(traj.positions)
+    h = max(2, whole.shape[0] // 2)
+    if whole.shape[0] - h >= 1:
+        def mk(c):
+            return Trajectory(species=list(traj.species), coords=np.array(c), lattice=traj.get_lattice(), time_step=traj.time_step, metadata=dict(traj.metadata))
+
+        def vals(t):
+            q = t.metrics()
+            return [float(q.tracer_diffusivity(dimensions=case['dim'])), float(q.tracer_diffusivity_center_of_mass(dimensions=case['dim'])),
+                    float(q.vibration_amplitude()), float(q.attempt_frequency()[0]), float(np.abs(q.speed()).sum()), float(q.speed().shape[1])]
+        grown = mk(whole[:h])
+        _first = vals(grown)
+        grown.extend(mk(whole[h:]))
+        out['grown'] = {'got': vals(grown), 'want': vals(mk(whole))}
     return out
 
 
@@ -133,6 +149,7 @@ def oracle(case, out):
         return [('c14/harness-error', f"{out.get('error')}: {out.get('msg')} {out.get('tb', '')[-400:]}")]
     fs = synth.inputs_clause(out, 'TrajectoryMetrics / TrajectoryMetricsStd')
     b, c, t = out['base'], out['cell'], out['time']
+    amp_scale0 = max([abs(x) for x in np.ravel(b.get('amps') or [0.0])] + [0.0])
     k, s = case['k'], case['s']
     # formulas on the implementation's own intermediates
     vol = abs(float(np.linalg.det(np.array(case['m'], dtype=float))))
@@ -173,6 +190,11 @@ def oracle(case, out):
                        f'(including the step from the base) but the Haven ratio is {b["haven"]}'))
         else:
             fs.append(('metrics/haven-identical-motion', f'all atoms move identically but the Haven ratio is {b["haven"]}'))
+    gr = out.get('grown')
+    if gr:
+        for name, got, want in zip(('dtracer', 'dcom', 'vib', 'freq', 'speed', 'frames'), gr['got'], gr['want']):
+            if not _close(got, want, 1e-8) and abs(got - want) > 1e-9 * amp_scale0:
+                fs.append((f'metrics/after-extend:{name}', f'{name} of a run analysed, extended in place and analysed again is {got}; the same frames analysed afresh give {want}'))
     # scaling laws
     laws = [('density', c['density'], b['density'] / k**3), ('dtracer', c['dtracer'], b['dtracer'] * k * k), ('dcom', c['dcom'], b['dcom'] * k * k),
             ('vib', c['vib'], b['vib'] * k), ('freq', c['freq'], b['freq']), ('haven', c['haven'], b['haven']),
